@@ -16,4 +16,9 @@ def build(src, tier):
     from . import core_targets as K
     w = K.world_for(src, tier)
     out += [(w, [K.t_dispatch()])]
+    from contracts import base_world
+    from contracts import queues as Q
+    wm = base_world(src)
+    Q.install(wm)
+    out += [(wm, [I.t_clear('clear_trace')])]
     return out
